@@ -108,6 +108,13 @@ func Execute(t *testing.T, sc *Scenario, plan *Plan, ch *Chooser, maxSteps int, 
 			s.MaxEvents = 0
 		}
 		ctx, cancel := context.WithCancel(context.Background())
+		if plan.X("ctx_deadline") == 1 && plan.CancelMs > 0 {
+			// the context carries a deadline the library can see; the
+			// canceller task cancels it one nanosecond earlier, so that the
+			// moment of cancellation is an event of the recorded history
+			cancel()
+			ctx, cancel = context.WithDeadline(context.Background(), time.Now().Add(ms(plan.CancelMs)))
+		}
 		e := &Env{S: s, Plan: plan, Ctx: ctx, cancel: cancel, Abort: make(chan struct{}), Probes: map[string]int{}, Faults: map[string]int{}}
 		s.Watch(ctx.Done(), &e.Cancelled)
 		env = e
@@ -123,7 +130,11 @@ func Execute(t *testing.T, sc *Scenario, plan *Plan, ch *Chooser, maxSteps int, 
 
 		if plan.CancelMs > 0 {
 			simrt.GoEnv("canceller", func() {
-				simrt.Sleep("canceller.sleep", ms(plan.CancelMs))
+				d := ms(plan.CancelMs)
+				if plan.X("ctx_deadline") == 1 {
+					d -= time.Nanosecond
+				}
+				simrt.Sleep("canceller.sleep", d)
 				if !simrt.Free() {
 					e.Cancel("timer")
 				}
